@@ -232,6 +232,15 @@ static Verdict runPacket(const Case& c, Info& info)
 
     if (c.relation == 3)
     {
+        if (before.hasPayload && (c.dst.seq & 1))
+        {
+            // the packet is handed its own payload (through the reference it gives out): a value must survive being assigned from itself
+            const lib::Payload& own = src.getPayload();
+            src.setPayload(own);
+            Snap afterSet = snap(src);
+            VF_CHECK(afterSet == before, "setPayload with the packet's own payload changed the packet: before " << before.str() << " after " << afterSet.str());
+            info.tag("set_payload_with_the_packets_own_payload");
+        }
         lib::Packet& alias = src;
         if (c.op % 2 == 0 || c.op == 1)
             src = alias;  // self-assignment
